@@ -8,13 +8,19 @@ namespace Tbox.C17
 set_option linter.unusedSimpArgs false
 set_option linter.unusedVariables false
 
-/-- ids of the FunctionAction leaves whose function was called, oldest first -/
-def fnOf (log : List Ev) : List Nat :=
-  (log.filterMap (fun e => match e with | .fn n => some n | _ => none)).reverse
+/-- what the owner of the tree can observe of a control-free run, oldest first: the calls of the
+leaf functions (`inl id`) and the finish notifications of the root (`inr (is_succ, reason)`) -/
+def trOf (log : List Ev) : List (Nat ⊕ (Bool × Nat)) :=
+  (log.filterMap (fun e => match e with
+    | .fn n => some (Sum.inl n)
+    | .rootFin s w _ => some (Sum.inr (s, w))
+    | _ => none)).reverse
 
-theorem fnOf_cons_fn (n : Nat) (log : List Ev) : fnOf (.fn n :: log) = fnOf log ++ [n] := by simp [fnOf]
-theorem fnOf_cons_other (e : Ev) (log : List Ev) (h : ∀ n, e ≠ .fn n) : fnOf (e :: log) = fnOf log := by
-  cases e <;> simp_all [fnOf]
+theorem trOf_cons_fn (n : Nat) (log : List Ev) : trOf (.fn n :: log) = trOf log ++ [Sum.inl n] := by simp [trOf]
+theorem trOf_cons_rootFin (s : Bool) (w : Nat) (st : St) (log : List Ev) : trOf (.rootFin s w st :: log) = trOf log ++ [Sum.inr (s, w)] := by
+  simp [trOf]
+theorem trOf_cons_other (e : Ev) (log : List Ev) (h : ∀ n, e ≠ .fn n) (h2 : ∀ s w st, e ≠ .rootFin s w st) : trOf (e :: log) = trOf log := by
+  cases e <;> simp_all [trOf]
 
 /-- loop-side invariant of a control-free run: repaired configuration, no script tasks -/
 def GIu (g : G) : Prop := GI g ∧ g.user = []
@@ -26,17 +32,17 @@ def DoneAs (t : T) (r : Bool × Nat) : Prop :=
 
 /-- what a (partial) control-free run `R` must look like, given the calls made before it (`L`), the
 evaluator's result `v` and visit order `vs` -/
-def RunOk (R : T × G × List Op) (L : List Nat) (v : Option (Bool × Nat)) (vs : List Nat) : Prop :=
+def RunOk (R : T × G × List Op) (L : List (Nat ⊕ (Bool × Nat))) (v : Option (Bool × Nat)) (vs : List Nat) : Prop :=
   GIu R.2.1 ∧ AP R.1 ∧
-  (hasFin R.1 = true → (∃ r, v = some r ∧ DoneAs R.1 r) ∧ fnOf R.2.1.log = L ++ vs) ∧
-  (hasFin R.1 = false → R.2.2 = [] ∧ (v ≠ none → ∃ pfx, pfx <+: vs ∧ fnOf R.2.1.log = L ++ pfx))
+  (hasFin R.1 = true → (∃ r, v = some r ∧ DoneAs R.1 r) ∧ trOf R.2.1.log = L ++ vs.map Sum.inl) ∧
+  (hasFin R.1 = false → R.2.2 = [] ∧ (v ≠ none → ∃ pfx, pfx <+: vs ∧ trOf R.2.1.log = L ++ pfx.map Sum.inl))
 
 /-- the control-free behaviour of a freshly built subtree `s`, started at any moment -/
 def Good (s : T) : Prop := ∀ g : G, GIu g →
   (start s g).2.2 = true ∧ GIu (start s g).2.1 ∧ (start s g).2.1.now = g.now ∧
-  fnOf (start s g).2.1.log = fnOf (start s g).2.1.log ∧
+  True ∧
   (∀ x ∈ allTimers (start s g).1 [], g.now < x.1) ∧
-  ∀ ops, ops.all cfOp = true → RunOk (runU (start s g).1 (start s g).2.1 ops) (fnOf g.log) (eval s) (visit s)
+  ∀ ops, ops.all cfOp = true → RunOk (runU (start s g).1 (start s g).2.1 ops) (trOf g.log) (eval s) (visit s)
 
 theorem runU_hasFin (t : T) (g : G) (ops : List Op) (h : hasFin t = true) : runU t g ops = (t, g, ops) := by
   cases ops <;> simp [runU, h]
@@ -69,7 +75,7 @@ theorem good_func (d : Node) (succ : Bool) (tag : Option Nat) (hk : d.kind = .fu
     simp [hasFin, T.data, TK.isFin, funcDone]
   have hgi : GIu { (g.emit (.fn d.id)) with nextId := g.nextId + 1 } :=
     ⟨⟨hg.1.1, by have := hg.1.2; simp only [G.emit]; omega⟩, hg.2⟩
-  refine ⟨rfl, hgi, rfl, rfl, by simp [allTimers, allTimersL, c5, funcDone], ?_⟩
+  refine ⟨rfl, hgi, rfl, trivial, by simp [allTimers, allTimersL, c5, funcDone], ?_⟩
   intro ops _
   rw [runU_hasFin _ _ ops hfin]
   refine ⟨hgi, ?_, ?_, ?_⟩
@@ -77,7 +83,7 @@ theorem good_func (d : Node) (succ : Bool) (tag : Option Nat) (hk : d.kind = .fu
   · intro _
     refine ⟨⟨(succ, fnWhy tag), by cases tag <;> simp [eval, hk, fnWhy], ⟨g.nextId, by simp [allTasks, allTasksL, funcDone]⟩,
       by simp [allTimers, allTimersL, c5, funcDone], rfl⟩, ?_⟩
-    simp [G.emit, fnOf_cons_fn, visit, hk]
+    simp [G.emit, trOf_cons_fn, visit, hk]
   · intro h; rw [hfin] at h; cases h
 
 /-! ### SleepAction -/
@@ -152,7 +158,7 @@ theorem good_sleep (d : Node) (ms : Nat) (hk : d.kind = .sleep ms) (hms : 1 ≤ 
     simp only [c1, hsh, hk]
     simp [Node.started, c1, armTmo, htmo, sleepRun, c4, hk]
   rw [hst]
-  refine ⟨rfl, hg, rfl, rfl, by simp [allTimers, allTimersL, sleepRun, c4]; omega, ?_⟩
+  refine ⟨rfl, hg, rfl, trivial, by simp [allTimers, allTimersL, sleepRun, c4]; omega, ?_⟩
   intro ops hcf
   have r := sleep_run d ms g.now hk hc htmo ops g hcf hg
   refine ⟨r.1, ?_, ?_, ?_⟩
